@@ -313,6 +313,23 @@ def make_cases(rng, tier, replay=None):
             ops.append({'op': 'sshort', 'var': v})
         ops.append({'op': 'viatime', 'var': vars_[i % 4]})
         add({'kind': 'sshort', 'dom': 's', 'sig': sig, 'expr': src, 'tag': 'sshort', 'ops': ops, 'oracle': False})
+    # the boundary of the s -> j omega shortcut: causal H(s) with poles ON the imaginary axis must not take the shortcut;
+    # the spectrum carries an impulse pi * residue at every such pole (model: FT of the causal time signal)
+    stp = ['SB', 'step', {}]
+    def cosu(w_):
+        return ['SAd', ['SSc', '1/2', ['SMo', ['w', w_], stp]], ['SSc', '1/2', ['SMo', ['w', S.fs(-Fraction(w_))], stp]]]
+    def sinu(w_):
+        return ['SAd', ['SSc', ['c', '0', '-1/2'], ['SMo', ['w', w_], stp]], ['SSc', ['c', '0', '1/2'], ['SMo', ['w', S.fs(-Fraction(w_))], stp]]]
+    marg = [('1/s', stp), ('3/s', ['SSc', '3', stp]), ('s/(s**2 + 9)', cosu('3')), ('2/(s**2 + 4)', sinu('2')),
+            ('1/(s*(s + 2))', ['SAd', ['SSc', '1/2', stp], ['SSc', '-1/2', ['SB', 'expu', {'c1': '-2', 'c0': '0/1'}]]]),
+            ('1/s**2', ['SB', 'tstep', {}]),
+            ('2/s + 1/(s + 1)', ['SAd', ['SSc', '2', stp], ['SB', 'expu', {'c1': '-1', 'c0': '0/1'}]]),
+            ('s/(s**2 + 1) + 1/(s + 3)', ['SAd', cosu('1'), ['SB', 'expu', {'c1': '-3', 'c0': '0/1'}]])]
+    if tier == 'quick':
+        marg = marg[:5] + [marg[5 + core.seed() % 3]]
+    for src, sig in marg:
+        ops = [{'op': 'sshort', 'var': v} for v in vars_] + [{'op': 'viatime', 'var': 'omega'}]
+        add({'kind': 'sshort', 'dom': 's', 'sig': sig, 'expr': src, 'tag': 'marginal', 'extra_feats': ['marginal'], 'ops': ops, 'oracle': False})
     # histories: the same key with different constant factors, interleaved (cache keyed without the constant)
     for i in range(n_hist):
         s1, s2 = g.signal_t(), g.signal_t()
@@ -361,6 +378,14 @@ Definition code (inv : bool) (P sP : Qc) (s : sig) (al be : lp) (x0 : Qc) :=
 Definition spec (inv : bool) (P sP : Qc) (s : sig) (al be : lp) (x0 : Qc) :=
   if inv then ft spec_tbl_inv (flipfn sp_simshift) (flipfn sp_mod) true P sP s al be x0
   else ft spec_tbl sp_simshift sp_mod false P sP s al be x0.
+(* the open finding F15, stated independently of the translation: the textbook table with the trap entry
+   multiplied by alpha.  A wrong result is attributed to F15 only if this table reproduces it exactly. *)
+Definition kd_tbl : list (nat * fn) :=
+  map (fun p => if Nat.eqb (fst p) P_trap then (fst p, Mul (Par 4) (snd p)) else p) spec_tbl.
+Definition kd_tbl_inv : list (nat * fn) := map (fun p => (fst p, flipfn (snd p))) kd_tbl.
+Definition kd (inv : bool) (P sP : Qc) (s : sig) (al be : lp) (x0 : Qc) :=
+  if inv then ft kd_tbl_inv (flipfn sp_simshift) (flipfn sp_mod) true P sP s al be x0
+  else ft kd_tbl sp_simshift sp_mod false P sP s al be x0.
 '''
 
 
@@ -386,17 +411,19 @@ def cases_v(items, have_gen=True):
             x0, P, sP = it['point']
             args = '%s %s %s %s %s %s %s' % ('true' if it['inv'] else 'false', coq_q(P), coq_q(sP), sigdefs[key], al, be, coq_q(x0))
             out.append('Definition obs_%d : list term := %s.' % (it['idx'], coq_nf(it['obs'])))
-            rows.append('(%d%%nat, chk (code %s) obs_%d, chk (spec %s) obs_%d)' % (it['idx'], args, it['idx'], args, it['idx']))
+            rows.append('(%d%%nat, chk (code %s) obs_%d, chk (spec %s) obs_%d, chk (kd %s) obs_%d)' % (
+                it['idx'], args, it['idx'], args, it['idx'], args, it['idx']))
         else:
             out.append('Definition obs_%d : list term := %s.' % (it['idx'], coq_nf(it['obs'])))
             out.append('Definition ref_%d : list term := %s.' % (it['idx'], coq_nf(it['ref'])))
-            rows.append('(%d%%nat, chk (Some ref_%d) obs_%d, chk (Some ref_%d) obs_%d)' % (it['idx'], it['idx'], it['idx'], it['idx'], it['idx']))
-    out.append('Definition items : list (nat * nat * nat) := [\n  %s].' % ';\n  '.join(rows))
-    out.append('Definition pick (f : nat * nat * nat -> nat) (v : nat) := map (fun r => fst (fst r)) (filter (fun r => Nat.eqb (f r) v) items).')
-    out.append('Eval vm_compute in pick (fun r => snd (fst r)) 1%nat.   (* code table: mismatch *)')
-    out.append('Eval vm_compute in pick (fun r => snd r) 1%nat.         (* textbook table: mismatch *)')
-    out.append('Eval vm_compute in pick (fun r => snd (fst r)) 2%nat.   (* code table: model abstains *)')
-    out.append('Eval vm_compute in pick (fun r => snd r) 2%nat.         (* textbook table: model abstains *)')
+            rows.append('(%d%%nat, chk (Some ref_%d) obs_%d, chk (Some ref_%d) obs_%d, 1%%nat)' % (it['idx'], it['idx'], it['idx'], it['idx'], it['idx']))
+    out.append('Definition items : list (nat * nat * nat * nat) := [\n  %s].' % ';\n  '.join(rows))
+    out.append('Definition pick (f : nat * nat * nat * nat -> nat) (v : nat) := map (fun r => fst (fst (fst r))) (filter (fun r => Nat.eqb (f r) v) items).')
+    out.append('Eval vm_compute in pick (fun r => snd (fst (fst r))) 1%nat.   (* code table: mismatch *)')
+    out.append('Eval vm_compute in pick (fun r => snd (fst r)) 1%nat.         (* textbook table: mismatch *)')
+    out.append('Eval vm_compute in pick (fun r => snd (fst (fst r))) 2%nat.   (* code table: model abstains *)')
+    out.append('Eval vm_compute in pick (fun r => snd (fst r)) 2%nat.         (* textbook table: model abstains *)')
+    out.append('Eval vm_compute in pick (fun r => snd r) 0%nat.               (* textbook table with the F15 trap entry: agrees *)')
     return '\n'.join(out) + '\n'
 
 
@@ -422,7 +449,7 @@ def op_features(case, op):
     if k == 'conv':
         fs_ = {'conv:%s.%s' % (VARCLS[op['var']], VARM[op['to']])}
     if k == 'sshort':
-        fs_ = {'sshort:LaplaceDomainExpression.%s' % VARM[op['var']]}
+        fs_ = {'sshort:LaplaceDomainExpression.%s' % VARM[op['var']]} | set(case.get('extra_feats', []))
     return fs_
 
 
@@ -660,7 +687,7 @@ def run(tier='quick', replay=None):
             for oi, op in enumerate(c['ops']):
                 if op['op'] == 'rt' and op['var'] in deg and (c['id'], oi) in op_status:
                     op_status[(c['id'], oi)]['feats'].add('degenerate_delta')
-        code_bad, spec_bad, code_abs, spec_abs = set(), set(), set(), set()
+        code_bad, spec_bad, code_abs, spec_abs, kd_ok = set(), set(), set(), set(), set()
         if items:
             shard = 150
             fns = []
@@ -672,11 +699,11 @@ def run(tier='quick', replay=None):
             for fn in fns:
                 ok, out, secs = cr[fn]
                 ls = parse_lists(out) if ok else []
-                if not ok or len(ls) != 4:
+                if not ok or len(ls) != 5:
                     res.failed_obl.append(('correspondence_eval', fn, out[-600:]))
                     res.obligations += 1
                     continue
-                code_bad |= set(ls[0]); spec_bad |= set(ls[1]); code_abs |= set(ls[2]); spec_abs |= set(ls[3])
+                code_bad |= set(ls[0]); spec_bad |= set(ls[1]); code_abs |= set(ls[2]); spec_abs |= set(ls[3]); kd_ok |= set(ls[4])
             res.extra['traces_validated_against_impl'] = len(items)
         for idx, (cid, oi, pi_) in opinfo.items():
             st = op_status[(cid, oi)]
@@ -684,6 +711,7 @@ def run(tier='quick', replay=None):
                 continue
             st['code'].append('abstain' if idx in code_abs else ('bad' if idx in code_bad else 'ok'))
             st['spec'].append('abstain' if idx in spec_abs else ('bad' if idx in spec_bad else 'ok'))
+            st.setdefault('kd', []).append(idx in kd_ok)
         tph['correspond'] = round(time.time() - t_, 1)
 
         # ---- 5. numeric search oracle --------------------------------------------------------------------------------
@@ -793,7 +821,13 @@ def run(tier='quick', replay=None):
             bf, thms = broken_feature(kind, st['feats'])
             sus = [f_ for f_ in st['feats'] if (kind, f_) in failing and (kind, f_) not in passing]
             sus.sort(key=lambda f_: (-failing[(kind, f_)], f_))
-            if bf:
+            if st.get('kd') and all(st['kd']) and 'pid:trap' in st['feats'] and kind in ('fwd', 'inv'):
+                # exactly the behaviour of the open finding F15 (trap entry times alpha), whatever the translation did
+                key = '%s:pid:trap:alpha-factor' % kind
+                thms = [n for n in (thms or []) if oblkey.get(n) == (kind, 'pid:trap')] or None
+                if thms is None:
+                    thms = [n for (k_, ft_), ns in broken.items() if (k_, ft_) == (kind, 'pid:trap') for n in ns] or None
+            elif bf:
                 # a known defect of a table entry / scale factor is the translated expression itself: the finding is keyed by
                 # the hash of that expression, and only covers results that the model WITH the translated (wrong) expression
                 # reproduces exactly; anything else on the same entry is a different violation
